@@ -2,13 +2,14 @@
     //@ item src:zvt_builder/src/encoding.rs | struct Bcd
     impl Encoding<u8> for Bcd {
         open spec fn enc_ok(v: &u8) -> bool { true }
+        open spec fn canon(v: &u8) -> bool { true }
         /// most significant digit first, two digits per byte, no leading zero byte
         open spec fn spec_enc(v: &u8) -> Seq<u8> { bcd_rev(*v as nat).reverse() }
         /// whole input is digits; a value that does not fit u8 is an error
         open spec fn spec_dec(b: Seq<u8>) -> Option<(u8, int)> {
             match bcd_fold(b, b.len(), 0xff) { Some(v) => Some((v as u8, b.len() as int)), None => None }
         }
-        open spec fn progresses() -> bool { true }
+        open spec fn progresses() -> bool { false }
         //@ fn exp:zvt_builder | impl Encoding<u8> for Bcd | encode | mod=encoding all-loops
         //@ loop 0
                 invariant rv@ + bcd_rev(k as nat) =~= bcd_rev(*input as nat),
@@ -30,13 +31,14 @@
     }
     impl Encoding<u16> for Bcd {
         open spec fn enc_ok(v: &u16) -> bool { true }
+        open spec fn canon(v: &u16) -> bool { true }
         /// most significant digit first, two digits per byte, no leading zero byte
         open spec fn spec_enc(v: &u16) -> Seq<u8> { bcd_rev(*v as nat).reverse() }
         /// whole input is digits; a value that does not fit u16 is an error
         open spec fn spec_dec(b: Seq<u8>) -> Option<(u16, int)> {
             match bcd_fold(b, b.len(), 0xffff) { Some(v) => Some((v as u16, b.len() as int)), None => None }
         }
-        open spec fn progresses() -> bool { true }
+        open spec fn progresses() -> bool { false }
         //@ fn exp:zvt_builder | impl Encoding<u16> for Bcd | encode | mod=encoding all-loops
         //@ loop 0
                 invariant rv@ + bcd_rev(k as nat) =~= bcd_rev(*input as nat),
@@ -58,13 +60,14 @@
     }
     impl Encoding<u32> for Bcd {
         open spec fn enc_ok(v: &u32) -> bool { true }
+        open spec fn canon(v: &u32) -> bool { true }
         /// most significant digit first, two digits per byte, no leading zero byte
         open spec fn spec_enc(v: &u32) -> Seq<u8> { bcd_rev(*v as nat).reverse() }
         /// whole input is digits; a value that does not fit u32 is an error
         open spec fn spec_dec(b: Seq<u8>) -> Option<(u32, int)> {
             match bcd_fold(b, b.len(), 0xffff_ffff) { Some(v) => Some((v as u32, b.len() as int)), None => None }
         }
-        open spec fn progresses() -> bool { true }
+        open spec fn progresses() -> bool { false }
         //@ fn exp:zvt_builder | impl Encoding<u32> for Bcd | encode | mod=encoding all-loops
         //@ loop 0
                 invariant rv@ + bcd_rev(k as nat) =~= bcd_rev(*input as nat),
@@ -86,13 +89,14 @@
     }
     impl Encoding<u64> for Bcd {
         open spec fn enc_ok(v: &u64) -> bool { true }
+        open spec fn canon(v: &u64) -> bool { true }
         /// most significant digit first, two digits per byte, no leading zero byte
         open spec fn spec_enc(v: &u64) -> Seq<u8> { bcd_rev(*v as nat).reverse() }
         /// whole input is digits; a value that does not fit u64 is an error
         open spec fn spec_dec(b: Seq<u8>) -> Option<(u64, int)> {
             match bcd_fold(b, b.len(), 0xffff_ffff_ffff_ffff) { Some(v) => Some((v as u64, b.len() as int)), None => None }
         }
-        open spec fn progresses() -> bool { true }
+        open spec fn progresses() -> bool { false }
         //@ fn exp:zvt_builder | impl Encoding<u64> for Bcd | encode | mod=encoding all-loops
         //@ loop 0
                 invariant rv@ + bcd_rev(k as nat) =~= bcd_rev(*input as nat),
@@ -114,13 +118,14 @@
     }
     impl Encoding<usize> for Bcd {
         open spec fn enc_ok(v: &usize) -> bool { true }
+        open spec fn canon(v: &usize) -> bool { true }
         /// most significant digit first, two digits per byte, no leading zero byte
         open spec fn spec_enc(v: &usize) -> Seq<u8> { bcd_rev(*v as nat).reverse() }
         /// whole input is digits; a value that does not fit usize is an error
         open spec fn spec_dec(b: Seq<u8>) -> Option<(usize, int)> {
             match bcd_fold(b, b.len(), 0xffff_ffff_ffff_ffff) { Some(v) => Some((v as usize, b.len() as int)), None => None }
         }
-        open spec fn progresses() -> bool { true }
+        open spec fn progresses() -> bool { false }
         //@ fn exp:zvt_builder | impl Encoding<usize> for Bcd | encode | mod=encoding all-loops
         //@ loop 0
                 invariant rv@ + bcd_rev(k as nat) =~= bcd_rev(*input as nat),
